@@ -197,6 +197,12 @@ def rule_cfg2(ctx: Ctx, f: FunctionInfo):
     cfg = cfg_of(f)
     for lp in [n for n in fn_body_nodes(f) if isinstance(n, ast.For)]:
         it = lp.iter
+        if isinstance(it, ast.Call) and isinstance(it.func, ast.Name) and it.func.id == "range" and len(it.args) >= 2 and isinstance(it.args[1], ast.Name) \
+                and it.args[1].id in f.param_names and isinstance(it.args[0], ast.Constant) and it.args[0].value != 0 and len(it.args) == 2:
+            # (written after seed C08-c) a sweep loop bounded by a parameter runs that many sweeps: range(k, n) with k != 0 runs fewer
+            ctx.violation("STOP-1", f, lp, f"the backup loop runs `{it.args[1].id}` sweeps",
+                          f"`for … in {norm(it)}` runs {it.args[1].id} - {it.args[0].value} sweeps, not {it.args[1].id}: the value function after the configured horizon is one backup short")
+            it = ast.Call(func=it.func, args=[it.args[1]], keywords=[])
         if not (isinstance(it, ast.Call) and isinstance(it.func, ast.Name) and it.func.id == "range" and len(it.args) == 1 and isinstance(it.args[0], ast.Name)):
             continue
         nvar = it.args[0].id
